@@ -284,15 +284,24 @@ def compiled(g0: int, a0: int, b0: int, g1: int, a1: int, b1: int, g2: int, a2: 
     ent = 'cz' if 'cz' in gsname else 'cx'
     kinds = [ent, 'u3', 'h']
     ops = []
-    for (g, a, b) in [(g0, a0, b0), (g1, a1, b1), (g2, a2, b2)][:nops]:
-        kind = kinds[rt.P(g, 0, len(kinds) - 1)]
-        qa = rt.P(a, 0, n - 1)
-        loc = [qa]
-        if kind in ('cx', 'cz'):
-            qb = rt.P(b, 0, n - 2)
-            loc.append(qb if qb < qa else qb + 1)
-        ops.append((kind, loc))
-    edges = [tuple(e) for e in S['edges']]
+    if 'fixed_ops' in S:
+        # fixed operations (entangler on the listed pairs), SYMBOLIC coupling graph: g0.. are edge bits over all pairs
+        ops = [(ent, list(loc)) for loc in S['fixed_ops']]
+        pairs = [(i, j) for i in range(m) for j in range(i + 1, m)]
+        bits = [g0, a0, b0, g1, a1, b1, g2, a2, b2]
+        edges = [pr for k, pr in enumerate(pairs) if rt.P(bits[k], 0, 1) == 1]
+        if not c01.connected(m, edges):
+            return True
+    else:
+        for (g, a, b) in [(g0, a0, b0), (g1, a1, b1), (g2, a2, b2)][:nops]:
+            kind = kinds[rt.P(g, 0, len(kinds) - 1)]
+            qa = rt.P(a, 0, n - 1)
+            loc = [qa]
+            if kind in ('cx', 'cz'):
+                qb = rt.P(b, 0, n - 2)
+                loc.append(qb if qb < qa else qb + 1)
+            ops.append((kind, loc))
+        edges = [tuple(e) for e in S['edges']]
 
     def run() -> Any:
         import bqskit.ir.gates as G
@@ -307,6 +316,10 @@ def compiled(g0: int, a0: int, b0: int, g1: int, a1: int, b1: int, g2: int, a2: 
         fp = c01.judge(inp, model, res[1], [])
         if fp is not None:
             return fp, inp, res
+        bad = c01.submodel_violations()
+        if bad:
+            rt.log('sub-model handed to a leaf pass is not faithful to the physical graph:', bad[:3])
+            return 'foreach-submodel-edge-not-physical', inp, res
         out = res[1][0]
         allowed = set(GATESETS[gsname])
         for op in out:
@@ -340,6 +353,11 @@ def _part_b(tier: str) -> list[dict]:
         obs.append({'name': 'B/compile/n2m3/ops2/line', 'func': 'compiled', 'timeout': 300,
                     'shard': {'n': 2, 'm': 3, 'nops': 2, 'edges': line3, 'levels': [1],
                               'gatesets': ['rz+rx+cz', 'u1+sx+cx', 'rz+sx+cx', 'u1+rx+cz']}})
+        # three entanglers on all pairs of 3 logical qubits, EVERY connected 4-qubit coupling graph, level 3 (blocks are
+        # re-synthesised after mapping: the sub-model handed to each block must be the physical one)
+        obs.append({'name': 'B/compile/n3m4/allpairs/every-graph/level3', 'func': 'compiled', 'timeout': 400,
+                    'shard': {'n': 3, 'm': 4, 'nops': 3, 'fixed_ops': [[0, 1], [1, 2], [0, 2]], 'levels': [3],
+                              'gatesets': ['u3+cx']}})
     else:
         for gsn in GATESETS:
             obs.append({'name': 'B/compile/n3m3/ops3/line/%s' % gsn, 'func': 'compiled', 'timeout': 1500,
